@@ -36,6 +36,8 @@ def ob_disconnect(report):
         res = ex.run(fn, [Ptr(('H', 'net', 'NetworkInner')), pid])
         n_ok = 0
         for r in res:
+            if r.tag == 'panic' and poison_panic(r):
+                continue
             if r.tag != 'return':
                 return viol(ob, [ex], f'disconnect can {r.tag}', 'disc-abnormal', path_summary(r), len(res))
             rm = [e for e in r.events if e.kind == 'remove']
@@ -54,6 +56,8 @@ def ob_disconnect(report):
         res2 = ex.run(fn2, [Ptr(('H', 'net', 'NetworkInner')), pid])
         fd = z3.BitVec('found.discr', 64)
         for r in res2:
+            if r.tag == 'panic' and poison_panic(r):
+                continue
             if r.tag != 'return':
                 return viol(ob, [ex], f'NetworkInner::peer can {r.tag}', 'peer-abnormal', path_summary(r), len(res2))
             g = [e for e in r.events if e.kind == 'get']
@@ -172,7 +176,9 @@ def check(report, tier, only=None):
     report.trusted += ['quinn: idle timeout / keep-alive detect silent loss; close is observed by the remote', 'std RwLock / HashMap contracts', 'z3 5.1']
     report.outside += ['eventual mutuality of the two views and loss detection within the idle timeout (QUIC timers, network)', 'histories of partitions and healing']
     obs = [('disconnect', ob_disconnect), ('remove_transition', C04.ob_remove), ('add_transition', C04.ob_add), ('reason', ob_reason_mapping), ('idle_timeout', ob_transport_config),
-           ('handler_exit', lambda rep: handler.ob_handler_tail(rep, PROP)), ('connection_end', C12.ob_tail_aborts_tasks)]
+           ('handler_exit', lambda rep: handler.ob_handler_tail(rep, PROP)), ('connection_end', C12.ob_tail_aborts_tasks),
+           # a listed connection always has the handler whose exit delists it (without one a closed connection stays listed for ever)
+           ('add_peer_wiring', lambda rep: handler.ob_add_peer(rep, PROP))]
     for n, f in obs:
         if only and not any(s in n for s in only):
             continue
